@@ -14,11 +14,14 @@
 (* Actions are the public operations; each is enabled exactly when the     *)
 (* real call returns Ok (a program is a sequence of accepted operations).  *)
 (* ThresholdChecked = TRUE: delegate_role refuses a threshold above the    *)
-(* number of keys.                                                         *)
+(* number of keys.  ProbeRefusals = TRUE (generation only) adds, as last    *)
+(* operations of a program, signing attempts with some but fewer than the  *)
+(* threshold of the edited role's keys: the editor must refuse them, and   *)
+(* if it does not, what it writes must still load (it will not).           *)
 (***************************************************************************)
 EXTENDS Naturals, Sequences, FiniteSets, TLC, Json
 
-CONSTANTS Names, DKeys, MaxOps, ThresholdChecked
+CONSTANTS Names, DKeys, MaxOps, ThresholdChecked, ProbeRefusals
 
 Top == "targets"
 DRoles == {"d1", "d2"}
@@ -114,13 +117,28 @@ Sign(ks) ==
   /\ signed' = "ok" /\ editing' = "none" /\ dirty' = FALSE
   /\ Log([op |-> "sign", keys |-> ks])
 
+\* signing attempts the editor must refuse: some, but fewer than the threshold, of the edited role's keys
+Partial(ks) == /\ editing # "none"
+               /\ RoleThr(editing) <= Cardinality(RoleKeys(editing))    \* a role the editor let us create
+               /\ Cardinality(ks \cap RoleKeys(editing)) > 0
+               /\ Cardinality(ks \cap RoleKeys(editing)) < RoleThr(editing)
+SignRefused(ks) ==
+  /\ ProbeRefusals /\ Can /\ {101, 102} \subseteq ks /\ Partial(ks)
+  /\ signed' = "refused" /\ Log([op |-> "sign", keys |-> ks])
+  /\ UNCHANGED <<top, role, editing, dirty>>
+SignEditorRefused(ks, all) ==
+  /\ ProbeRefusals /\ Can /\ Partial(ks)
+  /\ signed' = "refused"
+  /\ ops' = ops \o <<[op |-> "sign_targets_editor", keys |-> ks], [op |-> "sign", keys |-> all]>>
+  /\ UNCHANGED <<top, role, editing, dirty>>
+
 AllKeys == {101, 102, TopKey} \cup DKeys
 KeySets == {AllKeys, AllKeys \ {TopKey}, {101, 102, TopKey}} \cup {AllKeys \ {k} : k \in DKeys}
 Next ==
   \/ \E n \in Names : AddTarget(n) \/ RemoveTarget(n)
   \/ BumpVersion
   \/ \E d \in DRoles, ks \in (SUBSET DKeys) \ {{}}, thr \in 1..2, m \in SUBSET Names : DelegateRole(d, ks, thr, m)
-  \/ \E ks \in KeySets : SignEditor(ks) \/ Sign(ks)
+  \/ \E ks \in KeySets : SignEditor(ks) \/ Sign(ks) \/ SignRefused(ks) \/ SignEditorRefused(ks, AllKeys)
   \/ \E r \in DRoles \cup {Top} : ChangeTo(r)
 Spec == Init /\ [][Next]_vars
 
@@ -141,5 +159,6 @@ View == [targets |-> top.names, tversion |-> top.version,
                                                          thr |-> role[d].thr, keys |-> role[d].keys, parent |-> role[d].parent]
                                      ELSE [names |-> {}, version |-> 0, thr |-> 0, keys |-> {}, parent |-> "none"]]]
 
-Emit == signed = "ok" => PrintT(<<"REPLAY", ToJson([ops |-> ops, view |-> View, loads |-> ClientLoads])>>)
+Emit == signed \in {"ok", "refused"} =>
+          PrintT(<<"REPLAY", ToJson([ops |-> ops, view |-> View, loads |-> (signed = "ok" /\ ClientLoads), probe |-> (signed = "refused")])>>)
 =============================================================================
